@@ -208,6 +208,13 @@ def fixed_probes():
     P.append(("ok_idle_arena_to_thread", True, "borrowck", ["pub fn NAME() {", "    let mut b = Bump::new();", "    { let x = b.alloc(1u32); *x += 1; }", "    b.reset();", "    std::thread::spawn(move || { let y = b.alloc(2u32); *y += 1; drop(b); }).join().unwrap();", "}"], "an idle arena is moved to another thread"))
     P.append(("ok_reset_between", True, "borrowck", ["pub fn NAME() {", "    let mut b = Bump::new();", "    for _ in 0..2 { let x = b.alloc(1u32); *x += 1; b.reset(); }", "}"], "reset between uses"))
     P.append(("ok_return_with_arena_lifetime", True, "borrowck", ["pub fn NAME<'a>(b: &'a Bump) -> bumpalo::collections::Vec<'a, u8> {", "    let mut v = bumpalo::collections::Vec::new_in(b);", "    v.push(1);", "    v", "}"], "a Vec returned with the arena's lifetime"))
+    # API sweep: every public way of obtaining a value that carries the arena's lifetime (including values
+    # derived from other holders by conversions), each in four fixed programs
+    for name, expr in API_EXPRS:
+        P.append(("api_escape_%s" % name, False, "borrowck", ["pub fn NAME() {", "    let h;", "    {", "        let mut b = Bump::new();", "        h = %s;" % expr, "    }", "    let _ = &h;", "}"], "%s: value used after the scope of its arena" % name))
+        P.append(("api_reset_%s" % name, False, "borrowck", ["pub fn NAME() {", "    let mut b = Bump::new();", "    let h = %s;" % expr, "    b.reset();", "    let _ = &h;", "}"], "%s: value used after reset" % name))
+        P.append(("api_drop_%s" % name, False, "borrowck", ["pub fn NAME() {", "    let mut b = Bump::new();", "    let h = %s;" % expr, "    drop(b);", "    let _ = &h;", "}"], "%s: value used after the arena was dropped" % name))
+        P.append(("api_ok_%s" % name, True, "borrowck", ["pub fn NAME() {", "    let mut b = Bump::new();", "    let h = %s;" % expr, "    let _ = &h;", "    drop(h);", "    b.reset();", "}"], "%s: value given up before reset" % name))
     # auto traits
     send_yes = [("Bump", "Bump"), ("Bump<8>", "Bump<8>"), ("Box<u32>", "bumpalo::boxed::Box<'static, u32>"), ("IntoIter<u8>", "bumpalo::collections::vec::IntoIter<'static, u8>"), ("&mut u32", "&'static mut u32")]
     send_no = [("&Bump", "&'static Bump"), ("Vec<u8>", "bumpalo::collections::Vec<'static, u8>"), ("String", "bumpalo::collections::String<'static>"), ("ChunkRawIter", "bumpalo::ChunkRawIter<'static>"), ("ChunkIter", "bumpalo::ChunkIter<'static>"),
@@ -225,6 +232,55 @@ def fixed_probes():
     return P
 
 
+BX = "bumpalo::boxed::Box"
+BV = "bumpalo::collections::Vec"
+BS = "bumpalo::collections::String"
+DYN_ANY = "tie(&b, unsafe { %s::from_raw(%s::into_raw(%s::new_in(5u32, &b)) as *mut dyn std::any::Any) })" % (BX, BX, BX)
+DYN_ANY_SEND = "tie(&b, unsafe { %s::from_raw(%s::into_raw(%s::new_in(5u32, &b)) as *mut (dyn std::any::Any + Send)) })" % (BX, BX, BX)
+API_EXPRS = [
+    ("alloc", "b.alloc(1u32)"), ("try_alloc", "b.try_alloc(1u32).unwrap()"), ("alloc_with", "b.alloc_with(|| 1u32)"), ("try_alloc_with", "b.try_alloc_with(|| 1u32).unwrap()"),
+    ("alloc_try_with", "b.alloc_try_with(|| Ok::<u32, ()>(1)).unwrap()"), ("try_alloc_try_with", "b.try_alloc_try_with(|| Ok::<u32, ()>(1)).unwrap()"),
+    ("alloc_slice_copy", "b.alloc_slice_copy(&[1u8, 2])"), ("try_alloc_slice_copy", "b.try_alloc_slice_copy(&[1u8, 2]).unwrap()"),
+    ("alloc_slice_clone", "b.alloc_slice_clone(&[1u8, 2])"), ("try_alloc_slice_clone", "b.try_alloc_slice_clone(&[1u8, 2]).unwrap()"),
+    ("alloc_str", "b.alloc_str(\"x\")"), ("try_alloc_str", "b.try_alloc_str(\"x\").unwrap()"),
+    ("alloc_slice_fill_with", "b.alloc_slice_fill_with(2, |i| i as u8)"), ("try_alloc_slice_fill_with", "b.try_alloc_slice_fill_with(2, |i| i as u8).unwrap()"),
+    ("alloc_slice_try_fill_with", "b.alloc_slice_try_fill_with(2, |i| Ok::<u8, ()>(i as u8)).unwrap()"),
+    ("alloc_slice_fill_copy", "b.alloc_slice_fill_copy(2, 1u8)"), ("try_alloc_slice_fill_copy", "b.try_alloc_slice_fill_copy(2, 1u8).unwrap()"),
+    ("alloc_slice_fill_clone", "b.alloc_slice_fill_clone(2, &1u8)"), ("try_alloc_slice_fill_clone", "b.try_alloc_slice_fill_clone(2, &1u8).unwrap()"),
+    ("alloc_slice_fill_iter", "b.alloc_slice_fill_iter([1u8, 2])"), ("try_alloc_slice_fill_iter", "b.try_alloc_slice_fill_iter([1u8, 2]).unwrap()"),
+    ("alloc_slice_try_fill_iter", "b.alloc_slice_try_fill_iter([Ok::<u8, ()>(1), Ok(2)]).unwrap()"),
+    ("alloc_slice_fill_default", "b.alloc_slice_fill_default::<u8>(2)"), ("try_alloc_slice_fill_default", "b.try_alloc_slice_fill_default::<u8>(2).unwrap()"),
+    ("iter_allocated_chunks", "b.iter_allocated_chunks()"), ("iter_allocated_chunks_raw", "unsafe { b.iter_allocated_chunks_raw() }"),
+    ("chunk_slice", "b.iter_allocated_chunks().next()"),
+    ("Vec_new_in", "%s::<u8>::new_in(&b)" % BV), ("Vec_with_capacity_in", "%s::<u8>::with_capacity_in(2, &b)" % BV), ("Vec_from_iter_in", "%s::from_iter_in([1u8, 2], &b)" % BV),
+    ("vec_macro", "bumpalo::vec![in &b; 1u8, 2]"), ("vec_macro_repeat", "bumpalo::vec![in &b; 1u8; 3]"),
+    ("Vec_collect_in", "{ use bumpalo::collections::CollectIn; [1u8, 2].into_iter().collect_in::<%s<u8>>(&b) }" % BV),
+    ("Vec_bump", "%s::<u8>::new_in(&b).bump()" % BV), ("String_bump", "%s::new_in(&b).bump()" % BS),
+    ("Vec_clone", "bumpalo::vec![in &b; 1u8, 2].clone()"), ("Vec_split_off", "bumpalo::vec![in &b; 1u8, 2].split_off(1)"),
+    ("Vec_into_bump_slice", "bumpalo::vec![in &b; 1u8, 2].into_bump_slice()"), ("Vec_into_bump_slice_mut", "bumpalo::vec![in &b; 1u8, 2].into_bump_slice_mut()"),
+    ("Vec_into_boxed_slice", "bumpalo::vec![in &b; 1u8, 2].into_boxed_slice()"), ("Vec_into_iter", "bumpalo::vec![in &b; 1u8, 2].into_iter()"),
+    ("Box_from_Vec", "%s::<[u8]>::from(bumpalo::vec![in &b; 1u8, 2])" % BX),
+    ("String_new_in", "%s::new_in(&b)" % BS), ("String_with_capacity_in", "%s::with_capacity_in(2, &b)" % BS), ("String_from_str_in", "%s::from_str_in(\"ab\", &b)" % BS),
+    ("String_from_iter_in", "%s::from_iter_in(['a', 'b'], &b)" % BS), ("String_collect_in", "{ use bumpalo::collections::CollectIn; ['a', 'b'].into_iter().collect_in::<%s>(&b) }" % BS),
+    ("String_from_utf8", "%s::from_utf8(bumpalo::vec![in &b; 97u8]).unwrap()" % BS), ("String_from_utf8_err", "%s::from_utf8(bumpalo::vec![in &b; 255u8]).unwrap_err()" % BS),
+    ("FromUtf8Error_into_bytes", "%s::from_utf8(bumpalo::vec![in &b; 255u8]).unwrap_err().into_bytes()" % BS),
+    ("String_from_utf8_lossy_in", "%s::from_utf8_lossy_in(&[97u8, 255], &b)" % BS), ("String_from_utf16_in", "%s::from_utf16_in(&[97u16], &b).unwrap()" % BS),
+    ("String_from_utf8_unchecked", "unsafe { %s::from_utf8_unchecked(bumpalo::vec![in &b; 97u8]) }" % BS),
+    ("String_into_bytes", "%s::from_str_in(\"ab\", &b).into_bytes()" % BS), ("String_into_bump_str", "%s::from_str_in(\"ab\", &b).into_bump_str()" % BS),
+    ("String_split_off", "%s::from_str_in(\"ab\", &b).split_off(1)" % BS), ("String_clone", "%s::from_str_in(\"ab\", &b).clone()" % BS),
+    ("format_macro", "bumpalo::format!(in &b, \"{}\", 1)"),
+    ("Box_new_in", "%s::new_in(5u32, &b)" % BX), ("Box_pin_in", "%s::pin_in(5u32, &b)" % BX), ("Pin_from_Box", "std::pin::Pin::<%s<u32>>::from(%s::new_in(5u32, &b))" % (BX, BX)),
+    ("Box_leak", "%s::leak(%s::new_in(5u32, &b))" % (BX, BX)), ("Box_from_iter_in", "%s::<[u8]>::from_iter_in([1u8, 2], &b)" % BX),
+    ("Box_collect_in", "{ use bumpalo::collections::CollectIn; [1u8, 2].into_iter().collect_in::<%s<[u8]>>(&b) }" % BX),
+    ("Box_slice_from_array", "%s::<[u8]>::from(%s::new_in([1u8, 2], &b))" % (BX, BX)),
+    ("Box_array_try_from_slice", "%s::<[u8; 2]>::try_from(%s::<[u8]>::from_iter_in([1u8, 2], &b)).ok().unwrap()" % (BX, BX)),
+    ("Box_array_try_from_slice_err", "%s::<[u8; 3]>::try_from(%s::<[u8]>::from_iter_in([1u8, 2], &b)).err().unwrap()" % (BX, BX)),
+    ("Box_downcast_ok", "%s.downcast::<u32>().ok().unwrap()" % DYN_ANY), ("Box_downcast_err", "%s.downcast::<u8>().err().unwrap()" % DYN_ANY),
+    ("Box_send_downcast_ok", "%s.downcast::<u32>().ok().unwrap()" % DYN_ANY_SEND), ("Box_send_downcast_err", "%s.downcast::<u8>().err().unwrap()" % DYN_ANY_SEND),
+    ("Api2_Vec", "allocator_api2::vec::Vec::<u8, &Bump>::new_in(&b)"), ("Api2_Box", "allocator_api2::boxed::Box::new_in(5u32, &b)"),
+    ("Allocator_allocate", "{ use allocator_api2::alloc::Allocator; let a: &Bump = &b; (a, a.allocate(std::alloc::Layout::new::<u32>()).unwrap()).0 }"),
+]
+
 CARGO_TOML = """[package]
 name = "%s"
 version = "0.0.0"
@@ -238,7 +294,8 @@ bumpalo = { path = "/repo", features = ["collections", "boxed", "allocator-api2"
 allocator-api2 = { version = "0.2.8", default-features = false, features = ["alloc"] }
 """
 
-HEADER = ["#![allow(dead_code)]", "use bumpalo::Bump;", "fn assert_send<T: Send>() {}", "fn assert_sync<T: Sync>() {}", ""]
+HEADER = ["#![allow(dead_code, unused_mut, unused_variables, unused_unsafe, dropping_references, dropping_copy_types)]", "use bumpalo::Bump;", "fn assert_send<T: Send>() {}", "fn assert_sync<T: Sync>() {}",
+          "fn tie<'a, T: ?Sized>(_b: &'a Bump, x: bumpalo::boxed::Box<'a, T>) -> bumpalo::boxed::Box<'a, T> { x }", ""]
 
 
 def build_crate(root, name, probes):
